@@ -73,15 +73,6 @@ Definition tk_find_token_reverse : list stm :=
 Definition tk_run_search : list stm :=
   [SEv (Call "stats_reset"); SLoop [SIf [SEv (Call "seq_reset")] []]; SEv (Call "apply_global"); SEv (Call "enumerate_lines"); SLoop [SIf [] []; SEv (Rd "lines_searched"); SEv (Wr "lines_searched"); SEv (Call "decode_line"); SLoop [SIf [SEv (Call "apply_single"); SIf [SExit] []] []; SIf [SEv (Call "sequence_search")] [SEv (Call "simple_search")]]]; SEv (Call "process_sequences"); SEv (Rd "lines_searched"); SIf [SLoop [SIf [SLoop []] []]] []; SExit].
 
-Definition tk_tm_init : list stm :=
-  [SEv (Call "event_new"); SEv (Call "event_clear"); SEv (Call "thread_new"); SEv (Wr "running")].
-
-Definition tk_tm_start : list stm :=
-  [SEv (Call "thread_start"); SEv (Wr "running")].
-
-Definition tk_tm_stop : list stm :=
-  [SEv (Rd "running"); SIf [SEv (Call "event_set"); SEv (Call "thread_join"); SEv (Wr "running")] []].
-
 Definition tk_run_single : list stm :=
   [SLoop [SEv (Call "task_execute"); SEv (Call "stats_update")]; SEv (Wr "jobs_completed"); SEv (Wr "total_jobs")].
 
@@ -154,20 +145,26 @@ Definition tk_filtered_dir : list stm :=
 Definition tk_register : list stm :=
   [SIf [SEv (Rd "search_tags"); SIf [SEv (Rd "search_tags"); SIf [SEv (Rd "search_tags")] []] [SEv (Wr "search_tags")]] []; SIf [] []; SEv (Call "expand_path"); SLoop [SEv (Rd "entries"); SIf [SEv (Rd "entries")] [SEv (Call "get_source_id"); SEv (Wr "entries")]]].
 
-Definition tk_fs_add : list stm :=
-  [SIf [SEv (Call "restrict")] []; SEv (Call "register")].
+Definition tk_tm_init : list stm :=
+  [SEv (Call "event_new"); SEv (Call "event_clear"); SEv (Call "thread_new"); SEv (Wr "running")].
 
-Definition tk_resolve_from_tag : list stm :=
-  [SEv (Rd "search_tags"); SLoop [SEv (Call "resolve_from_id"); SEv (Call "append")]; SExit].
+Definition tk_tm_start : list stm :=
+  [SEv (Call "thread_start"); SEv (Wr "running")].
 
-Definition tk_resolve_from_id : list stm :=
-  [SEv (Rd "simple"); SIf [SEv (Rd "simple"); SExit] []; SEv (Rd "sequence"); SExit].
+Definition tk_tm_stop : list stm :=
+  [SEv (Rd "running"); SIf [SEv (Call "event_set"); SEv (Call "thread_join"); SEv (Wr "running")] []].
 
-Definition tk_source_id_to_path : list stm :=
-  [STry [SEv (Rd "source_ids"); SExit] [("KeyError", [SEv (Rd "source_ids")])] [] []; SExit].
+Definition tk_kill_workers : list stm :=
+  [SEv (Call "active_children"); SLoop [SIf [SIf [SEv (Call "remember_worker")] []] []]; SEv (Call "getpid"); SEv (Call "ps_children"); SLoop [SIf [SEv (Call "getpid"); SExit] []; STry [SEv (Call "kill")] [("ProcessLookupError", [])] [] []]].
 
-Definition tk_collection_init : list stm :=
-  [SEv (Call "reset")].
+Definition tk_cm_init : list stm :=
+  [SEv (Wr "search_catalog"); SEv (Wr "global_constraints"); SEv (Wr "global_restrictions")].
 
-Definition tk_collection_reset : list stm :=
-  [SEv (Wr "by_path")].
+Definition tk_fs_stats : list stm :=
+  [SEv (Rd "stats"); SExit].
+
+Definition tk_rse_init : list stm :=
+  [SEv (Wr "msg")].
+
+Definition tk_fse_init : list stm :=
+  [SEv (Wr "msg")].
